@@ -16,6 +16,11 @@ Open Scope N_scope.
    entry) the generated program runs; the shared counter equals its initial value plus the number of completed
    calls (as a wrapping usize); the counts returned over all threads are exactly the first [completed] values of
    the counter, each once; and with at most 2^64 completed calls they are pairwise distinct. *)
+(* the counter is a full machine word: the wrap-around bound 2^64 of the theorems below is the one of the
+   type declared in the source (a narrower atomic type would reissue counts after 2^bits calls) *)
+Theorem C20_counter_width : temp_counter_bits = 64.
+Proof. reflexivity. Qed.
+
 Theorem C20_unique : forall (nthreads : nat) (sched : list nat),
   exists st, run temp_counter_ops temp_count_from temp_counter_init nthreads sched = Some st /\
     counter st = nth_count temp_counter_init (completed st) /\
